@@ -7,7 +7,7 @@ HOOKS = {
 }
 
 ENGINES = [
-    {"name": "langmc", "path": "/verif/langmc", "serves_properties": ["C15"],
+    {"name": "langmc", "path": "/verif/langmc", "serves_properties": ["C05", "C14", "C15", "C16"],
      "kind_free_text": "Engine C: bounded enumeration of schema syntax trees, token strings, single-token edits and (for C05/C14/C16) schemas pushed through the real parser/compiler/generator in-process (overlay package inside internal/lang) and the Go compiler"},
     {"name": "schedmc", "path": "/verif/schedmc", "serves_properties": ["C03", "C04", "C06", "C07", "C09", "C11", "C18", "C19", "C20"],
      "kind_free_text": "Engine B: controlled-scheduler model checker for the real mpx/rpc code: a go/ast instrumenter rewrites sync, sync/atomic, go, select and channel operations of mpx, rpc, internal/writer and the baselibrary primitives to shims of a cooperative scheduler (injected by go build -overlay); stateless DFS over schedules with preemption / free-switch / environment-deviation bounds; fake transport, virtual time, deterministic LIFO pools; explicit-state BFS over event sequences for flow control; TLA+/TLC model bound to the code by edge-by-edge graph comparison"},
@@ -20,6 +20,24 @@ NOTES = "All checks are driven by bin/vcheck (lib/vcheck.py): it rebuilds the en
 NOT_APPLICABLE = {}
 
 CHECKS = {
+    "C05": {
+        "engine": "langmc", "level": "exploration", "design_ref": "DESIGN.md §P C05",
+        "technique": "bounded enumeration of schemas of a grammar pushed through the real compiler+generator (in-process), the Go compiler, and a reflective checker that drives every generated writer/reader with exhaustive small value sets against the dynamic tag-based API",
+        "text": "About a hundred schemas (every scalar kind as scalar and list over every tag class {1,2,255,256,65535}; any/message fields; imported, aliased and local enum/struct/message references and lists; nested structs; recursive messages; ten name classes incl. contextual and Go keywords for fields and struct members; multi-file package; 40-field message; services with every method shape) are generated, built, and each declared message/struct/enum is exercised with value sets {all-zero, all-boundary, all-distinct, one-hot per field}: generated writer -> generated reader, the same bytes read through the dynamic API by declared tag and wire type, presence flags, re-open, struct encode/decode inverse, enum<->int32, byte-identical regeneration.",
+        "note": "Expected tags/kinds/values come from the harness' own schema description (which also renders the .spec text). Service code is compile-checked only. Names that collide after the Go name mapping are outside the property's premise (see C14 known findings).",
+    },
+    "C14": {
+        "engine": "langmc", "level": "exploration", "design_ref": "DESIGN.md §P C14",
+        "technique": "exhaustive application of one mutation operator per language rule to a template schema, plus every single-token edit of the template, through the real compile+generate pipeline and `go build`; CLI exit status on lexical and rule errors",
+        "text": "The valid C05 schemas must generate and build. About 60 rule mutants (duplicate definition/field/tag/enum name/enum number/import/alias/option/method; tag 0, 65536, 2^31; enum beyond int32/int64, missing zero value; unknown local/imported/list types; service-typed field, list of services, lists of any/message; struct fields of non-value types; self- and mutually-recursive structs; channels of scalar/enum/list types; oneway with output/channel; bad method input/output types; returning a top-level service; missing/self/circular/unused import; empty package; keyword as definition name; lexical errors) must be rejected with an error naming the element, or - where the rule is not broken - build. Every single-token deletion/duplication/replacement of the template source is pushed through the whole pipeline: error or compilable output, never a panic. `spec generate` itself must exit non-zero for lexical and rule errors.",
+        "note": "Two known findings (identifier collisions after the Go name mapping; definitions named like Go predeclared types) are listed in known_findings.json.",
+    },
+    "C16": {
+        "engine": "langmc", "level": "exploration", "design_ref": "DESIGN.md §P C16",
+        "technique": "bounded enumeration of (schema A, schema A') pairs under edit sequences of length <=2, both versions generated by the real pipeline and compiled; cross-version write/read, absent/unknown field and Merge-preservation checks through generated code by a reflective checker",
+        "text": "Base messages with three fields over 14 kinds (scalars, enum, struct, nested message, lists, any) across the tag 255/256 boundary, and every A' derived by one edit (all ~38) or a selection of two edits from {add a field of each kind with a fresh small or large tag, remove, rename, reverse/rotate declarations, nothing}. Both versions are generated and built; for value sets {all-zero, all-boundary, all-distinct, one-hot}: data written by A is read by A' and vice versa: common tags equal, fields absent from the data read as zero with Has* false, unknown fields do not disturb the others, and Merge through the other version's writer preserves the fields it does not know.",
+        "note": "Type-changing edits are outside the statement. Pairs are deduplicated by field list.",
+    },
     "C15": {
         "engine": "langmc", "level": "exploration", "design_ref": "DESIGN.md §P C15",
         "technique": "bounded-exhaustive enumeration of syntax trees x layouts (print -> parse -> compare), of all token strings up to length 3/4 over a 42-token alphabet, and of every single-token edit of the checked-in schema files",
